@@ -286,3 +286,8 @@ Fixpoint trace (cfg : config) (st : state) (ops : list op) : list (op * obs) :=
   | [] => []
   | o :: r => let st' := step cfg st o in (o, observe cfg st') :: trace cfg st' r
   end.
+
+(* addrs_manager.appendObservedAddrs: the host takes at most
+   maxObservedAddrsPerListenAddr of what AddrsFor returns, in order *)
+Definition host_observed_for (k : nat) (cfg : config) (st : state) (la : laddr) : list Z :=
+  firstn k (addrs_for cfg st la).
